@@ -280,7 +280,7 @@ func typeSerializer(t dsl.Type, contextNamespace string, namedType *dsl.NamedTyp
 			}
 
 			unionClassName := common.UnionClassName(t)
-			if namedType != nil {
+			if namedType != nil && namedType.Type == dsl.Type(t) {
 				unionClassName = fmt.Sprintf("%s.%s", common.NamespaceIdentifierName(namedType.Namespace), namedType.Name)
 			} else {
 				unionClassName = fmt.Sprintf("%s.%s", common.NamespaceIdentifierName(contextNamespace), unionClassName)
